@@ -76,6 +76,8 @@ pub struct NcWorld {
     pub server: NetcodeServer,
     pub clients: BTreeMap<String, Cli>,
     pub toks: BTreeMap<String, Tok>,
+    /// token names in order of issue: datagrams are opened with the most recently issued keys first
+    pub tok_order: Vec<String>,
     pub emitted: Vec<Emitted>,
     pub payloads: HashMap<Vec<u8>, i64>,
     pub names: HashMap<String, usize>,
@@ -127,6 +129,7 @@ impl NcWorld {
             server: NetcodeServer::new(config),
             clients: BTreeMap::new(),
             toks: BTreeMap::new(),
+            tok_order: Vec::new(),
             emitted: vec![],
             payloads: HashMap::new(),
             names: HashMap::new(),
@@ -178,9 +181,15 @@ impl NcWorld {
 
     fn keys(&self) -> Vec<(String, [u8; 32])> {
         let mut v = vec![];
-        for (name, t) in self.toks.iter() {
-            v.push((format!("c2s:{}", name), t.token.client_to_server_key));
-            v.push((format!("s2c:{}", name), t.token.server_to_client_key));
+        let mut seen = std::collections::HashSet::new();
+        for name in self.tok_order.iter().rev() {
+            if !seen.insert(name.clone()) {
+                continue;
+            }
+            if let Some(t) = self.toks.get(name) {
+                v.push((format!("c2s:{}", name), t.token.client_to_server_key));
+                v.push((format!("s2c:{}", name), t.token.server_to_client_key));
+            }
         }
         v
     }
@@ -603,6 +612,7 @@ impl<W: Write> NcRunner<W> {
                     } else {
                         "X"
                     };
+                    w.tok_order.push(name.clone());
                     w.toks.insert(
                         name.clone(),
                         Tok {
